@@ -750,6 +750,32 @@ func (p *pathCtx) panicOutcome(tp targetPanic, g *goroutine) {
 	p.end(outPanic)
 }
 
+// spin: the code between vfMustFinishWithin and vfFinished is still running
+// after the stated number of instructions (a busy loop, not a blocked
+// goroutine). Reported like a deadlock: the native replay must not terminate.
+func (p *pathCtx) spin(fr *frame) {
+	var m Model
+	func() {
+		defer func() {
+			if r := recover(); r != nil {
+				if _, ok := r.(abortPath); !ok {
+					panic(r)
+				}
+			}
+		}()
+		if p.concrete {
+			m = p.E.replayModel
+		} else {
+			m = p.getModel()
+		}
+	}()
+	if m != nil {
+		st := fr.stack()
+		p.violation("deadlock", "no progress: still running after the stated instruction bound", fr.fn.String(), "", st, m)
+	}
+	p.end(outDeadlock)
+}
+
 func (p *pathCtx) deadlock(s *sched) {
 	if p.expectDeadlock {
 		p.end(outDeadlock)
